@@ -2,7 +2,7 @@ SPECIFICATION SpecGen
 CONSTANTS
   MaxClocks = 3
   Rounds = 3
-  DVals = {1, 2, 3, 5}
+  DVals = {1, 2, 3, 5, 90, 7200, 259200, 3000000}
   Overlap = TRUE
   Hist = TRUE
   Fault = "none"
